@@ -19,6 +19,7 @@ import dataclasses
 import json
 import re
 import typing
+import inspect
 import warnings
 
 from harness import core
@@ -930,6 +931,27 @@ def _compose_case(ck, env: Env, sig, position: str, rng, opset_reqs, v2=None, de
                 res = op.loop(m, v_initial=[extra_in],
                               body=lambda i, c, a: [op.const(np.array(True)), op.add(a, apply())])
                 outs["y"] = res[0]
+            elif position in ("function", "function-if"):
+                # inside the body of a function (`to_function`), directly or in an If branch there
+                to_function = __import__("spox._function", fromlist=["to_function"]).to_function
+                keys_ = list(args)
+                outer_args = dict(args)
+                inputs["cond"] = cond
+
+                def wrap(c_, *xs):
+                    nonlocal args
+                    args = dict(zip(keys_, xs))
+                    if position == "function":
+                        return [op.identity(apply())]
+                    return list(op.if_(c_, then_branch=lambda: [apply()], else_branch=lambda: [op.const(np.zeros((1,), np.float32))]))
+
+                # `to_function` reads the arity off the signature
+                wrap.__signature__ = inspect.Signature(
+                    [inspect.Parameter(f"p{i}", inspect.Parameter.POSITIONAL_OR_KEYWORD) for i in range(1 + len(keys_))])
+                wrap = to_function(f"F{sig['name']}", "fn.c18")(wrap)
+                (r,) = wrap(cond, *outer_args.values())
+                args = outer_args
+                outs["y"] = r
             elif position == "inline":
                 a0 = env.argument(ts.Tensor(np.float32, (1,)))
                 m0 = env.build({"a0": a0}, {"b0": op.relu(a0)})
@@ -950,12 +972,23 @@ def _compose_case(ck, env: Env, sig, position: str, rng, opset_reqs, v2=None, de
                    f"{type(e).__name__}: {str(e)[:200]}", case)
         return
     nodes = [n for n in find_nodes(model.graph, sig["domain"]) if n.op_type == sig["name"]]
+    if position in ("function", "function-if"):
+        fps = [f for f in model.functions if f.domain == "fn.c18"]
+        nodes = [n for f in fps for n in find_nodes(f, sig["domain"]) if n.op_type == sig["name"]]
+        fimp = {o.domain: o.version for f in fps for o in f.opset_import}
+        if len(fps) == 1 and (fimp.get(sig["domain"]) or 0) < sig["version"]:
+            ck.failure(f"import:{position}:version", f"the FunctionProto imports {sig['domain']} at {fimp.get(sig['domain'])}, "
+                       f"its body uses version {sig['version']}", case)
+        # inside the function the inputs are the function's formals: compare the pattern of slots
+        position_pattern = True
+    else:
+        position_pattern = False
     if len(nodes) != 1:
         ck.failure(f"build:{position}:count", f"{len(nodes)} {sig['name']} nodes in the model for one application", case)
         return
     p = nodes[0]
     want = expected_slots(sig)
-    if position == "inline-feed":
+    if position == "inline-feed" or position_pattern:
         # the inputs are produced by inlined models (generated names): compare the pattern of slots
         groups = {}
         got_pat = [None if not x else groups.setdefault(x, len(groups)) for x in p.input]
@@ -1405,7 +1438,7 @@ def run(ck: core.Check):
     opset_reqs = []
     for i in range(ck.pick(40, 300)):
         sig = gen_sig(rng, 30_000 + i)
-        for position in ("top", "if", "loop", "inline", "if2", "loop-if") + FEED_POSITIONS:
+        for position in ("top", "if", "loop", "inline", "if2", "loop-if", "function", "function-if") + FEED_POSITIONS:
             compose_case(ck, env, sig, position, rng, opset_reqs)
     for req, imports, position in opset_reqs:
         reqs.append({"kind": "opsets", "reqs": [[d, v] for d, v in req]})
